@@ -260,7 +260,7 @@ def r3_lookup_chain(ctx: Ctx) -> None:
 def get_table_own_first(gt) -> bool:
     f = return_facts(gt)
     own = [(v, c) for v, c in f if v == "self.table"]
-    par = [(v, c) for v, c in f if v == "self.parent.get_table()"]
+    par = [(v, c) for v, c in f if re.fullmatch(r"self\.parent\.get_table\([^()]*\)", v)]
     none = [(v, c) for v, c in f if v == "None"]
     return (len(own) >= 1 and len(par) >= 1 and len(own) + len(par) + len(none) == len(f)
             and all(("self.table is None", False) in c for _v, c in own)
